@@ -1,8 +1,8 @@
 package main
 
-// ctxsites.go (C14): two families of site tables, regenerated on every run as Gen/GenCtxSites.v.
+// ctxflow.go (C14): two families of site tables, regenerated on every run as Gen/GenCtxFlow.v.
 //
-// (A) ctx_sites -- WHICH CONTEXT the retrying clients hand down.
+// (A) ctxflow_sites -- WHICH CONTEXT the retrying clients hand down.
 //     Channel.RunWithRetry calls its argument once per attempt with the context of THAT attempt
 //     (the caller's context, or a child that expires after RetryOptions.TimeoutPerAttempt).  The
 //     attempt function has to hand that context on: the time-to-live of the call req, the waits of
@@ -50,14 +50,14 @@ import (
 	"golang.org/x/tools/go/packages"
 )
 
-type cxRow struct {
+type cflRow struct {
 	pkg, file string
 	pos       int
 	cols      []string
 	origin    int
 }
 
-func cxOneLine(fset *token.FileSet, n ast.Node) string {
+func cflOneLine(fset *token.FileSet, n ast.Node) string {
 	s := (&translator{fset: fset}).src(n)
 	s = strings.Join(strings.Fields(s), " ")
 	if len(s) > 120 {
@@ -66,7 +66,7 @@ func cxOneLine(fset *token.FileSet, n ast.Node) string {
 	return s
 }
 
-func cxFuncName(fd *ast.FuncDecl) string {
+func cflFuncName(fd *ast.FuncDecl) string {
 	fn := fd.Name.Name
 	if fd.Recv != nil && len(fd.Recv.List) == 1 {
 		rt := fd.Recv.List[0].Type
@@ -80,7 +80,7 @@ func cxFuncName(fd *ast.FuncDecl) string {
 	return fn
 }
 
-func cxTerminates(b *ast.BlockStmt) bool {
+func cflTerminates(b *ast.BlockStmt) bool {
 	if b == nil || len(b.List) == 0 {
 		return false
 	}
@@ -99,17 +99,17 @@ func cxTerminates(b *ast.BlockStmt) bool {
 	return false
 }
 
-// cxWalk visits every node below body with its guard.  Function literals are entered with the
+// cflWalk visits every node below body with its guard.  Function literals are entered with the
 // guard element "func" unless enterLit returns false for them.
-func cxWalk(fset *token.FileSet, body ast.Node, enterLit func(*ast.FuncLit) bool, visit func(n ast.Node, guard []string)) {
+func cflWalk(fset *token.FileSet, body ast.Node, enterLit func(*ast.FuncLit) bool, visit func(n ast.Node, guard []string)) {
 	with := func(guard []string, g string) []string { return append(append([]string{}, guard...), g) }
 	var walk func(n ast.Node, guard []string)
 	walkList := func(l []ast.Stmt, guard []string) {
 		g := guard
 		for _, s := range l {
 			walk(s, g)
-			if is, ok := s.(*ast.IfStmt); ok && is.Else == nil && cxTerminates(is.Body) {
-				g = with(g, "!("+cxOneLine(fset, is.Cond)+")")
+			if is, ok := s.(*ast.IfStmt); ok && is.Else == nil && cflTerminates(is.Body) {
+				g = with(g, "!("+cflOneLine(fset, is.Cond)+")")
 			}
 		}
 	}
@@ -126,7 +126,7 @@ func cxWalk(fset *token.FileSet, body ast.Node, enterLit func(*ast.FuncLit) bool
 		case *ast.IfStmt:
 			walk(x.Init, guard)
 			walk(x.Cond, guard)
-			c := cxOneLine(fset, x.Cond)
+			c := cflOneLine(fset, x.Cond)
 			walk(x.Body, with(guard, c))
 			if x.Else != nil {
 				walk(x.Else, with(guard, "!("+c+")"))
@@ -151,7 +151,7 @@ func cxWalk(fset *token.FileSet, body ast.Node, enterLit func(*ast.FuncLit) bool
 				var ps []string
 				for _, e := range x.List {
 					walk(e, guard)
-					ps = append(ps, cxOneLine(fset, e))
+					ps = append(ps, cflOneLine(fset, e))
 				}
 				g = "case " + strings.Join(ps, ", ")
 			}
@@ -161,7 +161,7 @@ func cxWalk(fset *token.FileSet, body ast.Node, enterLit func(*ast.FuncLit) bool
 			g := "default"
 			if x.Comm != nil {
 				walk(x.Comm, guard)
-				g = "case " + cxOneLine(fset, x.Comm)
+				g = "case " + cflOneLine(fset, x.Comm)
 			}
 			walkList(x.Body, with(guard, g))
 			return
@@ -206,9 +206,9 @@ func cxWalk(fset *token.FileSet, body ast.Node, enterLit func(*ast.FuncLit) bool
 // ---------------------------------------------------------------------------------------------
 
 // functions of the core package whose callees are followed (the path of an outbound call)
-var cxFollowInRoot = map[string]bool{"Channel.BeginCall": true, "SubChannel.BeginCall": true, "Peer.BeginCall": true, "Connection.beginCall": true}
+var cflFollowInRoot = map[string]bool{"Channel.BeginCall": true, "SubChannel.BeginCall": true, "Peer.BeginCall": true, "Connection.beginCall": true}
 
-type cxUnit struct { // one function body to analyse
+type cflUnit struct { // one function body to analyse
 	pkg   *packages.Package
 	file  string
 	name  string
@@ -217,7 +217,7 @@ type cxUnit struct { // one function body to analyse
 	outer ast.Node // for a function literal: the literal itself
 }
 
-func cxIsContext(ty types.Type) bool {
+func cflIsContext(ty types.Type) bool {
 	if ty == nil {
 		return false
 	}
@@ -237,14 +237,14 @@ func cxIsContext(ty types.Type) bool {
 	return true
 }
 
-func cxLoadAll(repo string) []*packages.Package {
+func cflLoadAll(repo string) []*packages.Package {
 	cfg := &packages.Config{
 		Mode: packages.NeedName | packages.NeedFiles | packages.NeedSyntax | packages.NeedTypes | packages.NeedTypesInfo | packages.NeedImports | packages.NeedDeps,
 		Dir:  repo,
 	}
 	pkgs, err := packages.Load(cfg, "./...")
 	if err != nil {
-		failf("ctxsites: load ./...: %v", err)
+		failf("ctxflow: load ./...: %v", err)
 	}
 	var out []*packages.Package
 	for _, p := range pkgs {
@@ -252,7 +252,7 @@ func cxLoadAll(repo string) []*packages.Package {
 			continue
 		}
 		if len(p.Errors) > 0 {
-			failf("ctxsites: load %s: %v", p.PkgPath, p.Errors[0])
+			failf("ctxflow: load %s: %v", p.PkgPath, p.Errors[0])
 		}
 		out = append(out, p)
 	}
@@ -260,7 +260,7 @@ func cxLoadAll(repo string) []*packages.Package {
 	return out
 }
 
-func cxShortPkg(p *packages.Package, rootPath string) string {
+func cflShortPkg(p *packages.Package, rootPath string) string {
 	if p.PkgPath == rootPath {
 		return "."
 	}
@@ -268,8 +268,8 @@ func cxShortPkg(p *packages.Package, rootPath string) string {
 }
 
 func ctxFlowSites(w *bytes.Buffer, repo string, rootPath string) (int, int) {
-	pkgs := cxLoadAll(repo)
-	var rows []cxRow
+	pkgs := cflLoadAll(repo)
+	var rows []cflRow
 	closures := 0
 	var attemptFns [][2]string
 
@@ -301,9 +301,9 @@ func ctxFlowSites(w *bytes.Buffer, repo string, rootPath string) (int, int) {
 			return o != nil && o.Pkg() != nil && o.Pkg().Path() == rootPath
 		}
 
-		var queue []cxUnit
+		var queue []cflUnit
 		seen := map[ast.Node]bool{}
-		push := func(u cxUnit) {
+		push := func(u cflUnit) {
 			if u.body == nil || seen[u.body] {
 				return
 			}
@@ -313,11 +313,11 @@ func ctxFlowSites(w *bytes.Buffer, repo string, rootPath string) (int, int) {
 		// roots: RunWithRetry itself, and everything passed to it
 		for o, fd := range decls {
 			if p.PkgPath == rootPath && o.Name() == "RunWithRetry" && fd.Recv != nil {
-				push(cxUnit{p, fileOf[fd], cxFuncName(fd), fd.Type, fd.Body, nil})
+				push(cflUnit{p, fileOf[fd], cflFuncName(fd), fd.Type, fd.Body, nil})
 			}
 			// the call primitives the clients end in, down to Connection.beginCall
 			if p.PkgPath == rootPath && (o.Name() == "BeginCall" || o.Name() == "beginCall") && fd.Recv != nil {
-				push(cxUnit{p, fileOf[fd], cxFuncName(fd), fd.Type, fd.Body, nil})
+				push(cflUnit{p, fileOf[fd], cflFuncName(fd), fd.Type, fd.Body, nil})
 			}
 		}
 		var fds []*ast.FuncDecl
@@ -331,7 +331,7 @@ func ctxFlowSites(w *bytes.Buffer, repo string, rootPath string) (int, int) {
 			ast.Inspect(fd.Body, func(n ast.Node) bool {
 				if fl, ok := n.(*ast.FuncLit); ok {
 					nlit++
-					litName[fl] = fmt.Sprintf("%s/func%d", cxFuncName(fd), nlit)
+					litName[fl] = fmt.Sprintf("%s/func%d", cflFuncName(fd), nlit)
 				}
 				return true
 			})
@@ -351,8 +351,8 @@ func ctxFlowSites(w *bytes.Buffer, repo string, rootPath string) (int, int) {
 					closures++
 					switch x := a.(type) {
 					case *ast.FuncLit:
-						attemptFns = append(attemptFns, [2]string{cxShortPkg(p, rootPath), litName[x]})
-						push(cxUnit{p, fileOf[fd], litName[x], x.Type, x.Body, x})
+						attemptFns = append(attemptFns, [2]string{cflShortPkg(p, rootPath), litName[x]})
+						push(cflUnit{p, fileOf[fd], litName[x], x.Type, x.Body, x})
 					case *ast.Ident, *ast.SelectorExpr:
 						var id *ast.Ident
 						if i, ok := x.(*ast.Ident); ok {
@@ -361,18 +361,18 @@ func ctxFlowSites(w *bytes.Buffer, repo string, rootPath string) (int, int) {
 							id = x.(*ast.SelectorExpr).Sel
 						}
 						if d, ok := decls[info.Uses[id]]; ok {
-							attemptFns = append(attemptFns, [2]string{cxShortPkg(p, rootPath), cxFuncName(d)})
-							push(cxUnit{p, fileOf[d], cxFuncName(d), d.Type, d.Body, nil})
+							attemptFns = append(attemptFns, [2]string{cflShortPkg(p, rootPath), cflFuncName(d)})
+							push(cflUnit{p, fileOf[d], cflFuncName(d), d.Type, d.Body, nil})
 						} else {
-							attemptFns = append(attemptFns, [2]string{cxShortPkg(p, rootPath), cxFuncName(fd) + "/?"})
+							attemptFns = append(attemptFns, [2]string{cflShortPkg(p, rootPath), cflFuncName(fd) + "/?"})
 							// a function value whose body cannot be found: no context discipline can be read off
-							rows = append(rows, cxRow{cxShortPkg(p, rootPath), fileOf[fd], int(a.Pos()),
-								[]string{cxShortPkg(p, rootPath), cxFuncName(fd), "", "RunWithRetry", cxOneLine(fset, a), ""}, 3})
+							rows = append(rows, cflRow{cflShortPkg(p, rootPath), fileOf[fd], int(a.Pos()),
+								[]string{cflShortPkg(p, rootPath), cflFuncName(fd), "", "RunWithRetry", cflOneLine(fset, a), ""}, 3})
 						}
 					default:
-						attemptFns = append(attemptFns, [2]string{cxShortPkg(p, rootPath), cxFuncName(fd) + "/?"})
-						rows = append(rows, cxRow{cxShortPkg(p, rootPath), fileOf[fd], int(a.Pos()),
-							[]string{cxShortPkg(p, rootPath), cxFuncName(fd), "", "RunWithRetry", cxOneLine(fset, a), ""}, 3})
+						attemptFns = append(attemptFns, [2]string{cflShortPkg(p, rootPath), cflFuncName(fd) + "/?"})
+						rows = append(rows, cflRow{cflShortPkg(p, rootPath), fileOf[fd], int(a.Pos()),
+							[]string{cflShortPkg(p, rootPath), cflFuncName(fd), "", "RunWithRetry", cflOneLine(fset, a), ""}, 3})
 					}
 				}
 				return true
@@ -389,7 +389,7 @@ func ctxFlowSites(w *bytes.Buffer, repo string, rootPath string) (int, int) {
 			findParam:
 				for _, fld := range u.ftype.Params.List {
 					tv, ok := info.Types[fld.Type]
-					if !ok || !cxIsContext(tv.Type) {
+					if !ok || !cflIsContext(tv.Type) {
 						continue
 					}
 					if len(fld.Names) == 0 {
@@ -450,7 +450,7 @@ func ctxFlowSites(w *bytes.Buffer, repo string, rootPath string) (int, int) {
 			inParamDefs := false
 			var origin func(e ast.Expr, depth int) (int, string)
 			origin = func(e ast.Expr, depth int) (int, string) {
-				txt := cxOneLine(fset, e)
+				txt := cflOneLine(fset, e)
 				if depth > 6 {
 					return 3, txt
 				}
@@ -489,7 +489,7 @@ func ctxFlowSites(w *bytes.Buffer, repo string, rootPath string) (int, int) {
 							if k == 0 {
 								k = 1
 							}
-							return k, x.Name + " := " + cxOneLine(fset, ds[0])
+							return k, x.Name + " := " + cflOneLine(fset, ds[0])
 						}
 						return 3, txt
 					}
@@ -501,7 +501,7 @@ func ctxFlowSites(w *bytes.Buffer, repo string, rootPath string) (int, int) {
 					// f(ctx, ...) with a context first parameter: derived from that argument
 					if tv, ok := info.Types[x.Fun]; ok {
 						if sig, ok := tv.Type.Underlying().(*types.Signature); ok && sig.Params().Len() > 0 &&
-							cxIsContext(sig.Params().At(0).Type()) && len(x.Args) > 0 {
+							cflIsContext(sig.Params().At(0).Type()) && len(x.Args) > 0 {
 							k, _ := origin(x.Args[0], depth+1)
 							if k == 0 {
 								k = 1
@@ -513,7 +513,7 @@ func ctxFlowSites(w *bytes.Buffer, repo string, rootPath string) (int, int) {
 				}
 				return 3, txt
 			}
-			cxWalk(fset, u.body, nil, func(n ast.Node, guard []string) {
+			cflWalk(fset, u.body, nil, func(n ast.Node, guard []string) {
 				c, ok := n.(*ast.CallExpr)
 				if !ok {
 					return
@@ -523,15 +523,15 @@ func ctxFlowSites(w *bytes.Buffer, repo string, rootPath string) (int, int) {
 				}
 				for _, a := range c.Args {
 					tv, ok := info.Types[a]
-					if !ok || !cxIsContext(tv.Type) {
+					if !ok || !cflIsContext(tv.Type) {
 						continue
 					}
 					k, txt := origin(a, 0)
 					// inside a nested function literal with a context parameter of its own the
 					// unit's parameter is an outer variable: such literals are separate units only
 					// when they are passed to RunWithRetry; elsewhere the guard shows "func"
-					rows = append(rows, cxRow{cxShortPkg(p, rootPath), u.file, int(a.Pos()),
-						[]string{cxShortPkg(p, rootPath), u.name, paramName, cxOneLine(fset, c.Fun), txt, strings.Join(guard, " && ")}, k})
+					rows = append(rows, cflRow{cflShortPkg(p, rootPath), u.file, int(a.Pos()),
+						[]string{cflShortPkg(p, rootPath), u.name, paramName, cflOneLine(fset, c.Fun), txt, strings.Join(guard, " && ")}, k})
 					// follow the callee inside the package
 					var id *ast.Ident
 					switch f := c.Fun.(type) {
@@ -541,8 +541,8 @@ func ctxFlowSites(w *bytes.Buffer, repo string, rootPath string) (int, int) {
 						id = f.Sel
 					}
 					if id != nil {
-						if d, ok := decls[info.Uses[id]]; ok && (p.PkgPath != rootPath || cxFollowInRoot[u.name]) {
-							push(cxUnit{p, fileOf[d], cxFuncName(d), d.Type, d.Body, nil})
+						if d, ok := decls[info.Uses[id]]; ok && (p.PkgPath != rootPath || cflFollowInRoot[u.name]) {
+							push(cflUnit{p, fileOf[d], cflFuncName(d), d.Type, d.Body, nil})
 						}
 					}
 				}
@@ -559,7 +559,7 @@ func ctxFlowSites(w *bytes.Buffer, repo string, rootPath string) (int, int) {
 		return rows[i].pos < rows[j].pos
 	})
 	fmt.Fprintf(w, "(* (package, function, context parameter, callee, context argument, guard, origin) *)\n")
-	fmt.Fprintf(w, "Definition ctx_sites : list (list Z * list Z * list Z * list Z * list Z * list Z * Z) := [\n")
+	fmt.Fprintf(w, "Definition ctxflow_sites : list (list Z * list Z * list Z * list Z * list Z * list Z * Z) := [\n")
 	for i, r := range rows {
 		sep := ";"
 		if i == len(rows)-1 {
@@ -594,7 +594,7 @@ func ctxFlowSites(w *bytes.Buffer, repo string, rootPath string) (int, int) {
 // (B) connection-failure path
 // ---------------------------------------------------------------------------------------------
 
-func (t *translator) cxEmit3(w *bytes.Buffer, name, doc string, rows []cxRow, ncol int) {
+func (t *translator) cflEmit3(w *bytes.Buffer, name, doc string, rows []cflRow, ncol int) {
 	sort.SliceStable(rows, func(i, j int) bool {
 		if rows[i].file != rows[j].file {
 			return rows[i].file < rows[j].file
@@ -624,7 +624,7 @@ func (t *translator) cxEmit3(w *bytes.Buffer, name, doc string, rows []cxRow, nc
 
 func (t *translator) connFailSites(w *bytes.Buffer) (int, int, int) {
 	fset := t.fset
-	var stops, notifies, watches []cxRow
+	var stops, notifies, watches []cflRow
 	for _, f := range t.pkg.Syntax {
 		fname := filepath.Base(fset.Position(f.Pos()).Filename)
 		if strings.HasSuffix(fname, "_test.go") || strings.HasPrefix(fname, "zz_verif") {
@@ -635,20 +635,20 @@ func (t *translator) connFailSites(w *bytes.Buffer) (int, int, int) {
 			if !ok || fd.Body == nil {
 				continue
 			}
-			fn := cxFuncName(fd)
-			cxWalk(fset, fd.Body, nil, func(n ast.Node, guard []string) {
+			fn := cflFuncName(fd)
+			cflWalk(fset, fd.Body, nil, func(n ast.Node, guard []string) {
 				g := strings.Join(guard, " && ")
 				switch x := n.(type) {
 				case *ast.CallExpr:
 					if sel, ok := x.Fun.(*ast.SelectorExpr); ok && sel.Sel.Name == "stopExchanges" {
 						arg := ""
 						if len(x.Args) > 0 {
-							arg = cxOneLine(fset, x.Args[0])
+							arg = cflOneLine(fset, x.Args[0])
 						}
-						stops = append(stops, cxRow{"", fname, int(x.Pos()), []string{fn, cxOneLine(fset, sel.X), arg, g}, 0})
+						stops = append(stops, cflRow{"", fname, int(x.Pos()), []string{fn, cflOneLine(fset, sel.X), arg, g}, 0})
 					}
 					if fn == "messageExchangeSet.stopExchanges" {
-						notifies = append(notifies, cxRow{"", fname, int(x.Pos()), []string{fn, cxOneLine(fset, x), g}, 0})
+						notifies = append(notifies, cflRow{"", fname, int(x.Pos()), []string{fn, cflOneLine(fset, x), g}, 0})
 					}
 					if fn == "Connection.dispatchInbound" {
 						inGo, inSel := false, false
@@ -661,23 +661,23 @@ func (t *translator) connFailSites(w *bytes.Buffer) (int, int, int) {
 							}
 						}
 						if inGo && inSel {
-							watches = append(watches, cxRow{"", fname, int(x.Pos()), []string{fn, cxOneLine(fset, x), g}, 0})
+							watches = append(watches, cflRow{"", fname, int(x.Pos()), []string{fn, cflOneLine(fset, x), g}, 0})
 						}
 					}
 				case *ast.AssignStmt:
 					if fn == "messageExchangeSet.stopExchanges" {
-						notifies = append(notifies, cxRow{"", fname, int(x.Pos()), []string{fn, cxOneLine(fset, x), g}, 0})
+						notifies = append(notifies, cflRow{"", fname, int(x.Pos()), []string{fn, cflOneLine(fset, x), g}, 0})
 					}
 				case *ast.ReturnStmt:
 					if fn == "messageExchangeSet.stopExchanges" {
-						notifies = append(notifies, cxRow{"", fname, int(x.Pos()), []string{fn, cxOneLine(fset, x), g}, 0})
+						notifies = append(notifies, cflRow{"", fname, int(x.Pos()), []string{fn, cflOneLine(fset, x), g}, 0})
 					}
 				}
 			})
 		}
 	}
-	t.cxEmit3(w, "stop_sites", "(function, receiver, argument, guard) of every stopExchanges call", stops, 4)
-	t.cxEmit3(w, "notify_sites", "(function, statement, guard): calls, assignments and returns of messageExchangeSet.stopExchanges", notifies, 3)
-	t.cxEmit3(w, "watch_sites", "(function, call, guard): calls inside the select of the goroutine started by Connection.dispatchInbound", watches, 3)
+	t.cflEmit3(w, "stop_sites", "(function, receiver, argument, guard) of every stopExchanges call", stops, 4)
+	t.cflEmit3(w, "notify_sites", "(function, statement, guard): calls, assignments and returns of messageExchangeSet.stopExchanges", notifies, 3)
+	t.cflEmit3(w, "watch_sites", "(function, call, guard): calls inside the select of the goroutine started by Connection.dispatchInbound", watches, 3)
 	return len(stops), len(notifies), len(watches)
 }
